@@ -63,4 +63,5 @@ var genericCmds = map[string]func(common.Args, *common.Out) error{
 	"satenum":     generic.SatEnum,
 	"levelcheck":  generic.LevelCheck,
 	"schemacheck": generic.SchemaCheck,
+	"emureplay":   generic.EmuReplay,
 }
